@@ -271,6 +271,9 @@ pub struct Driver {
     pub challenges: Box<dyn Fn(&StarkConfig, &Sp) -> Option<(Vec<F>, FE)>>,
     /// accumulators of the real ConstraintConsumer driven by Stark::eval_ext
     pub vanish: Box<dyn Fn(usize, FE, &[F], &[F], &[FE], &[FE]) -> Option<Vec<FE>>>,
+    /// accumulators after lookup::eval_packed_lookups_generic on explicit values:
+    /// (alphas, z_last, l_first, l_last, local, next, aux local, aux next, challenges)
+    pub lkeval: Box<dyn Fn(&[FE], FE, FE, FE, &[FE], &[FE], &[FE], &[FE], &[F]) -> Option<Vec<FE>>>,
 }
 
 pub fn to_poly_values(rows: &[Vec<F>], ncols: usize) -> Vec<PolynomialValues<F>> {
@@ -293,6 +296,7 @@ fn make<const N: usize, const PI: usize>(spec: Arc<FamSpec>) -> Driver {
     let s2 = spec.clone();
     let s3 = spec.clone();
     let s4 = spec.clone();
+    let s5 = spec.clone();
     Driver {
         spec,
         prove: Box::new(move |cfg, rows, pis| {
@@ -327,6 +331,16 @@ fn make<const N: usize, const PI: usize>(spec: Arc<FamSpec>) -> Driver {
                 let pis_e: Vec<FE> = pis.iter().map(|&x| feb(x)).collect();
                 let vars = StarkFrame::<FE, FE, N, PI>::from_values(lv, nv, &pis_e);
                 stark.eval_ext(&vars, &mut consumer);
+                consumer.accumulators()
+            })).ok()
+        }),
+        lkeval: Box::new(move |alphas, zl, l0, ll, lv, nv, auxl, auxn, chs| {
+            let stark = Fam::<N, PI> { spec: s5.clone() };
+            catch_unwind(AssertUnwindSafe(|| {
+                let mut consumer = ConstraintConsumer::<FE>::new(alphas.to_vec(), zl, l0, ll);
+                let pis_e: Vec<FE> = vec![FE::ZERO; PI];
+                let vars = StarkFrame::<FE, FE, N, PI>::from_values(lv, nv, &pis_e);
+                starky::verif_hooks::eval_lookups_ext::<F, Fam<N, PI>, D>(&stark, &vars, auxl, auxn, chs, &mut consumer);
                 consumer.accumulators()
             })).ok()
         }),
@@ -596,8 +610,8 @@ pub fn json_verdict(drv: &Driver, cfg: &StarkConfig, v: Value) -> String {
 // ------------------------------------------------------------------------------------------
 // correspondence lines
 
-fn ext2(x: FE) -> [u64; 2] { let a: [F; 2] = <FE as FieldExtension<D>>::to_basefield_array(&x); [a[0].to_canonical_u64(), a[1].to_canonical_u64()] }
-fn rfe(r: &mut Rng) -> FE { <FE as FieldExtension<D>>::from_basefield_array([rf(r), rf(r)]) }
+pub fn ext2(x: FE) -> [u64; 2] { let a: [F; 2] = <FE as FieldExtension<D>>::to_basefield_array(&x); [a[0].to_canonical_u64(), a[1].to_canonical_u64()] }
+pub fn rfe(r: &mut Rng) -> FE { <FE as FieldExtension<D>>::from_basefield_array([rf(r), rf(r)]) }
 fn join(v: &[u64]) -> String { v.iter().map(|x| x.to_string()).collect::<Vec<_>>().join(" ") }
 
 fn sat_line(w: &mut dyn Write, b: &Built, rows: &[Vec<F>], pis: &[F]) {
